@@ -7,9 +7,13 @@ TrInt == Ev.ev = "int" /\ ~Ev.err /\ ~Ev.panic /\ IntRoundTrip(Ev.t, Ev.n, Ev.in
 TrIntMul == Ev.ev = "intmul" /\ ~Ev.err /\ ~Ev.panic /\ IntProduct(Ev.t, Ev.a, Ev.b, Ev.out)
 TrApprox == Ev.ev = "approx" /\ ~Ev.err /\ ~Ev.panic /\ ApproxRoundTrip(Ev.vals, Ev.out, Ev.lgscale, Ev.lgn, Ev.prec)
 TrPublic == Ev.ev = "public" /\ ~Ev.err /\ ~Ev.panic /\ PublicRoundTrip(Ev.vals, Ev.out, Ev.lgscale, Ev.lgn, Ev.prec, Ev.logprec)
+TrApproxMul == Ev.ev = "approxmul" /\ ~Ev.err /\ ~Ev.panic /\ ApproxProduct(Ev.a, Ev.b, Ev.out)
+\* Embed writes into a ring.Poly what Encode writes, and into a ringqp.Poly the same integers modulo Q and modulo P
+TrEmbed == Ev.ev = "embed" /\ ~Ev.err /\ ~Ev.panic /\ Ev.samer /\ Ev.sameq /\ Ev.samep
+TrFFT == Ev.ev = "fft" /\ ~Ev.err /\ ~Ev.panic /\ FFTRoundTrip(Ev.vals, Ev.out)
 \* documented refusals (too many values)
 TrRefuse == Ev.ev = "refuse" /\ Ev.err /\ ~Ev.panic
-TraceNext == /\ l <= Len(Trace) /\ l' = l + 1 /\ (TrInt \/ TrIntMul \/ TrApprox \/ TrPublic \/ TrRefuse)
+TraceNext == /\ l <= Len(Trace) /\ l' = l + 1 /\ (TrInt \/ TrIntMul \/ TrApprox \/ TrPublic \/ TrApproxMul \/ TrEmbed \/ TrFFT \/ TrRefuse)
 TraceInit == l = 1 /\ TLCSet(1, 1)
 TraceSpec == TraceInit /\ [][TraceNext]_l
 Progress == TLCSet(1, IF TLCGet(1) > l THEN TLCGet(1) ELSE l)
